@@ -220,7 +220,7 @@ def engine_unit(ctx, harness, eng, replay, pr):
         raise RuntimeError('otterdrv (component models) does not build: ' + pr.get('otterdrv_err', ''))
 
     def judge(tr):
-        rc, out = _run([OTTERDRV, name] + eng.get('drv_args', []), inp=tr, timeout=3000)
+        rc, out = _run([OTTERDRV, eng.get('dcmd', name)] + eng.get('drv_args', []), inp=tr, timeout=3000)
         fails, summ = [], {}
         for l in out.decode('utf-8', 'replace').splitlines():
             if l.startswith('FAIL '):
@@ -266,7 +266,7 @@ def engine_unit(ctx, harness, eng, replay, pr):
 
     def job(j):
         start, n = j
-        rc, tr = _run([harness, 'unit-' + name, '-seed', str(ctx.seed), '-from', str(start), '-n', str(n)] + eng.get('args', []), timeout=3000)
+        rc, tr = _run([harness, eng.get('hcmd', 'unit-' + name), '-seed', str(ctx.seed), '-from', str(start), '-n', str(n)] + eng.get('args', []), timeout=3000)
         if rc != 0:
             raise RuntimeError(f'harness unit-{name} crashed: ' + tr.decode('utf-8', 'replace')[-600:])
         fails, summ = judge(tr)
